@@ -494,6 +494,11 @@ func (m *ConnectMessage) decodeMessage(src []byte) (int, error) {
 	var err error
 	n, total := 0, 0
 
+	// The message may have been used before (a session decodes the CONNECT of every
+	// connection that resumes it into the same object): fields the new packet does
+	// not carry must not keep their old values.
+	m.willTopic, m.willMessage, m.username, m.password = nil, nil, nil, nil
+
 	m.protoName, n, err = readLPBytes(src[total:])
 	total += n
 	if err != nil {
